@@ -42,7 +42,7 @@ class Node(NodeBase):
         return w.lazy_default(self)
 
     def __hash__(self):
-        return hash(("N", self.uid))
+        return 1000003 * self.uid + 17
 
     def __repr__(self):
         return "N%d" % self.uid
@@ -56,7 +56,7 @@ class ValuelessNode(NodeBase):
     children = List(Instance(NodeBase))
 
     def __hash__(self):
-        return hash(("N", self.uid))
+        return 1000003 * self.uid + 17
 
     def __repr__(self):
         return "V%d" % self.uid
@@ -72,7 +72,7 @@ class LooseNode(NodeBase):
     children = Any()
 
     def __hash__(self):
-        return hash(("N", self.uid))
+        return 1000003 * self.uid + 17
 
     def __repr__(self):
         return "L%d" % self.uid
